@@ -348,6 +348,27 @@ func (w *sketchWorld) apply(e *SkEvent) (errClass string, problem string) {
 			return "", "decoded sketch: " + p
 		}
 		return "", ""
+	case "Concat":
+		t := w.sk[e.T-1]
+		omit := e.W == 1
+		b := []byte{}
+		for _, src := range []*realSketch{w.sk[e.S-1], w.sk[e.V-1]} {
+			if src.exact != nil {
+				src.exact.Encode(&b, omit)
+			} else {
+				src.plain.Encode(&b, omit)
+			}
+		}
+		var err error
+		if t.exact != nil {
+			err = t.exact.DecodeAndMergeWith(b)
+		} else {
+			err = t.plain.DecodeAndMergeWith(b)
+		}
+		if err != nil {
+			return "", "DecodeAndMergeWith of a concatenation of two valid encodings returned: " + err.Error()
+		}
+		return "", ""
 	case "Proto":
 		s := w.sk[e.S-1]
 		var msg *sketchpb.DDSketch
@@ -972,11 +993,12 @@ func replaySketch(beh []SkStep, cfg *SketchCfg) (mm *SkMismatch) {
 		}
 		recv := cur.S
 		switch cur.Op {
-		case "Merge", "Copy", "EncDec", "DecodeNew", "Proto":
+		case "Merge", "Copy", "EncDec", "DecodeNew", "Proto", "Concat":
 			recv = cur.T
 		}
 		var before []*skSnap
-		if asp["pure"] || (asp["reweight"] && cur.Op == "Reweight") || (asp["refuse"] && beh[i].Err != "") {
+		isDecode := cur.Op == "EncDec" || cur.Op == "DecodeNew" || cur.Op == "Proto" || cur.Op == "Concat"
+		if asp["pure"] || (asp["reweight"] && cur.Op == "Reweight") || (asp["refuse"] && beh[i].Err != "") || (asp["decode"] && isDecode) {
 			for _, r := range w.sk {
 				before = append(before, snapshot(r))
 			}
@@ -1057,6 +1079,33 @@ func replaySketch(beh []SkStep, cfg *SketchCfg) (mm *SkMismatch) {
 					tags["aspect"] = "clear"
 					return &SkMismatch{Step: step, Slot: s + 1, Aspect: "clear", What: fmt.Sprintf("slot %d: an object reused after Clear answers differently from a brand-new object given the same later history:\nreused: %s\nnew:    %s", s+1, a, b), Tags: tags}
 				}
+			}
+		}
+		if asp["decode"] && isDecode {
+			// C06/C09: decoding s's encoding into t is merging: per-index sums of the two real contents
+			// (bit for bit when t starts empty); the source keeps its snapshot
+			srcs := []int{cur.S}
+			if cur.Op == "Concat" {
+				srcs = append(srcs, cur.V)
+			}
+			for _, si := range srcs {
+				if after := snapshot(w.sk[si-1]); !snapEqual(before[si-1], after) {
+					tags["aspect"] = "decode"
+					return &SkMismatch{Step: step, Slot: si, Aspect: "decode", What: fmt.Sprintf("encoding slot %d changed its answers:\nbefore: %s\nafter:  %s", si, before[si-1], after), Tags: tags}
+				}
+			}
+			tk := store.VerifLayout(w.sk[recv-1].base().GetPositiveValueStore()).Kind
+			nk := store.VerifLayout(w.sk[recv-1].base().GetNegativeValueStore()).Kind
+			if tk != "low" && tk != "high" && nk != "low" && nk != "high" {
+				fresh := cur.Op == "DecodeNew" || cur.Op == "Proto"
+				if d := decodeIsMerge(before[recv-1], before, srcs, snapshot(w.sk[recv-1]), fresh, cur.Op != "Proto"); d != "" {
+					tags["aspect"] = "decode"
+					return &SkMismatch{Step: step, Slot: recv, Aspect: "decode", What: fmt.Sprintf("%s(%+v): %s", cur.Op, *cur, d), Tags: tags}
+				}
+			} else if d := w.compareSketch(w.sk[recv-1], &beh[i].Pred[recv-1]); d != nil {
+				// bounded target: the content is the fold the specification predicts (C05 clamping)
+				tags["aspect"] = "decode"
+				return &SkMismatch{Step: step, Slot: recv, Aspect: "decode", What: fmt.Sprintf("%s into bounded stores: %s", cur.Op, d.What), Pred: &beh[i].Pred[recv-1], Tags: tags}
 			}
 		}
 		if asp["reweight"] && cur.Op == "Reweight" && want == "" && cur.Num != cur.Den {
